@@ -40,7 +40,7 @@ def close_case(draw, tier="quick"):
             # things an application may do on the way: stop one transceiver, start a second negotiation round
             "extras": draw(st.lists(st.one_of(
                 st.tuples(st.sampled_from(["stop-transceiver", "reoffer", "reoffer"]), st.integers(1, 6), st.integers(0, 1)).map(list),
-                st.tuples(st.sampled_from(["peer-goes-away", "peer-dtls-closes"]), st.sampled_from([4, 5, 6, 6]), st.integers(0, 1)).map(list)),
+                st.tuples(st.sampled_from(["peer-goes-away", "peer-dtls-closes", "own-transport-stopped"]), st.sampled_from([4, 5, 6, 6]), st.integers(0, 1)).map(list)),
                 max_size=2)),
             # a quarter of the cases over a path whose datagram send suspends (TURN relay): more interleavings inside
             # every coroutine that sends
@@ -206,6 +206,22 @@ class Scenario:
                         self.deferred_inject.discard(idx)
                         self.inject(idx, loop)
                     await asyncio.sleep(0.05)
+                elif ex[0] == "own-transport-stopped" and at >= 5 and self.pcs.index(pc) not in self.close_tasks:
+                    # an application that uses the ORTC-level objects: it stops the connection's DTLS transports itself and
+                    # closes the connection right afterwards
+                    self.classes.add("own-transport-stopped")
+                    idx = self.pcs.index(pc)
+                    self.busy_stopping.add(idx)
+                    try:
+                        for t in list(getattr(pc, "_RTCPeerConnection__dtlsTransports", [])):
+                            try:
+                                await t.stop()
+                            except Exception:
+                                pass
+                    finally:
+                        self.busy_stopping.discard(idx)
+                        self.deferred_inject.discard(idx)
+                    self.inject(idx, loop)
                 elif ex[0] == "reoffer" and (at >= 5 or pc is self.pcs[0]) and pc.signalingState in ("stable", "have-local-offer") \
                         and self.pcs.index(pc) not in self.close_tasks:
                     self.classes.add("reoffer")
